@@ -11,14 +11,17 @@ ASSUMPTIONS = [
     "untraced, IGNORE) are not judged",
     "fixture functions: class, generic, Optional, string, NewType and Any annotations, annotated and unannotated None defaults, a method, keyword-only "
     "parameters; traced subset = one solver decision per parameter; traced types from a small alphabet",
+    "CLI path: cli.main(argv) with every flag combination of the stub command, compared with the stub built directly with the strategy / rewriter the flags name",
     "the stub is evaluated by harness/stubeval.py with the source module's namespace available (self-containedness is C11's subject, not C13's)",
 ]
 
 
 def run(tier):
     name = "annot_quick" if tier == "quick" else "annot_thorough"
-    jobs = [Job("harness.c13", name, H.shards(name, 3 if tier == "quick" else 4), 240 if tier == "quick" else 600,
+    jobs = [Job("harness.c13", name, H.shards(name, 3 if tier == "quick" else 4), 500 if tier == "quick" else 600,
                 bounds=dict(strategies=[s.name for s in H.STRATEGIES], functions=[f.__qualname__ for f in H.FUNCS], shapes=list(H.SHAPES),
                             traced_types=3 if tier == "quick" else 5),
-                rule="one path = (strategy, function, traced subset, traced types, return/yield shape)", describe=H.describe)]
+                rule="one path = (strategy, function, traced subset, traced types, return/yield shape)", describe=H.describe),
+            Job("harness.c13", "cli_flags", H.shards("cli_flags"), 240, bounds=dict(flags=[list(f) for f in H.CLI_FLAGS], functions=4, traces="2..7 (crosses RewriteLargeUnion's limit)"),
+                rule="one path = (CLI flags, function, number of traces); cli.main must produce the stub of the strategy / rewriter the flags name", describe=H.describe)]
     return run_check(PID, tier, jobs, H.FUNCTIONS, ASSUMPTIONS)
